@@ -2,9 +2,9 @@
 
 PROPS = {
     "C01": {
-        "bin": "px_stream", "budget_ms": 1500, "wall_cap": {"quick": 600, "thorough": 2400},
+        "bin": "px_stream", "budget_ms": 30000, "wall_cap": {"quick": 600, "thorough": 2400},
         "rule": "stateless sequence exploration: every sequence of d tokens (d<=3) over the per-emulation alphabets (all 256 bytes, the complete CSI final x intermediate x parameter table, "
-                "ESC/DCS/OSC/APS/music/native command tokens, every proper prefix of every token) from every reachable start context (byte prefixes) on the listed screen sizes; "
+                "ESC/DCS/OSC/APS/music/native command tokens, every proper prefix of every token) from every reachable start context (byte prefixes) on the listed screen sizes; plus long histories made small by the macro sub-language (a macro of 5000 empty sixel sequences invoked 12 times, a macro of 2000 small images invoked 20 times: resources held per sequence must not add up); "
                 "non-trivial = the run produced at least one error value or panic; states = distinct observable end states (caret, terminal state, cells)",
         "level_text": "all token sequences up to the stated depth are run on the real parsers, one character at a time under catch_unwind, in killable worker processes; no sampling",
         "level_note": "covers sequences of <=3 tokens beyond a context (contexts are themselves byte prefixes); characters are U+0000..U+00FF; cases cut by the CPU budget belong to C03 and are not judged here",
